@@ -283,7 +283,7 @@ fn parser_calls(doc: &str, cap: u64) -> Option<u64> {
 struct Family {
     name: &'static str,
     sizes: Vec<u32>,
-    gen: fn(u32) -> (String, Option<String>),
+    gen: Box<dyn Fn(u32) -> (String, Option<String>) + Sync + Send>,
 }
 
 fn chain(n: u32, f: usize, nested: bool) -> String {
@@ -316,102 +316,102 @@ fn deep_sizes(max: u32) -> Vec<u32> {
 fn families(max_n: u32) -> Vec<Family> {
     let lin: Vec<u32> = (1..=max_n).collect();
     let to24: Vec<u32> = (1..=24).collect();
-    vec![
-        Family { name: "chain-f1", sizes: lin.clone(), gen: |n| (chain(n, 1, false), None) },
-        Family { name: "chain-f2", sizes: lin.clone(), gen: |n| (chain(n, 2, false), None) },
-        Family { name: "chain-f3", sizes: lin.clone(), gen: |n| (chain(n, 3, false), None) },
-        Family { name: "nested-chain-f1", sizes: lin.clone(), gen: |n| (chain(n, 1, true), None) },
-        Family { name: "nested-chain-f2", sizes: lin.clone(), gen: |n| (chain(n, 2, true), None) },
+    let mut fams = vec![
+        Family { name: "chain-f1", sizes: lin.clone(), gen: Box::new(|n| (chain(n, 1, false), None)) },
+        Family { name: "chain-f2", sizes: lin.clone(), gen: Box::new(|n| (chain(n, 2, false), None)) },
+        Family { name: "chain-f3", sizes: lin.clone(), gen: Box::new(|n| (chain(n, 3, false), None)) },
+        Family { name: "nested-chain-f1", sizes: lin.clone(), gen: Box::new(|n| (chain(n, 1, true), None)) },
+        Family { name: "nested-chain-f2", sizes: lin.clone(), gen: Box::new(|n| (chain(n, 2, true), None)) },
         Family {
             name: "diamond",
             sizes: lin.clone(),
-            gen: |n| {
+            gen: Box::new(|n| {
                 let mut d = String::from("query { ...A1 ...B1 }\n");
                 for i in 1..=n {
                     let next = if i == n { String::new() } else { format!("...A{} ...B{} ", i + 1, i + 1) };
                     d += &format!("fragment A{i} on Node {{ a {next}}}\nfragment B{i} on Node {{ b {next}}}\n");
                 }
                 (d, None)
-            },
+            }),
         },
-        Family { name: "field-copies", sizes: lin.clone(), gen: |n| (format!("{{ {}}}", "a ".repeat(16 * n as usize)), None) },
+        Family { name: "field-copies", sizes: lin.clone(), gen: Box::new(|n| (format!("{{ {}}}", "a ".repeat(16 * n as usize)), None)) },
         Family {
             name: "aliases-x-fragments",
             sizes: lin.clone(),
-            gen: |n| {
+            gen: Box::new(|n| {
                 let mut d = format!("query {{ {}}}\n", (1..=n).map(|i| format!("...F{i} ")).collect::<String>());
                 let body: String = (1..=n).map(|j| format!("x{j}: a ")).collect();
                 for i in 1..=n {
                     d += &format!("fragment F{i} on Node {{ {body}}}\n");
                 }
                 (d, None)
-            },
+            }),
         },
-        Family { name: "inline-nesting", sizes: deep_sizes(max_n), gen: |d| (format!("{{ {} }}", nest("... on Node { ", "a", " }", d)), None) },
-        Family { name: "field-nesting", sizes: deep_sizes(max_n), gen: |d| (format!("{{ {} }}", nest("o { ", "a", " }", d)), None) },
-        Family { name: "complexity-nesting", sizes: deep_sizes(max_n), gen: |d| (format!("{{ {} }}", nest("c { ", "a", " }", d)), None) },
+        Family { name: "inline-nesting", sizes: deep_sizes(max_n), gen: Box::new(|d| (format!("{{ {} }}", nest("... on Node { ", "a", " }", d)), None)) },
+        Family { name: "field-nesting", sizes: deep_sizes(max_n), gen: Box::new(|d| (format!("{{ {} }}", nest("o { ", "a", " }", d)), None)) },
+        Family { name: "complexity-nesting", sizes: deep_sizes(max_n), gen: Box::new(|d| (format!("{{ {} }}", nest("c { ", "a", " }", d)), None)) },
         Family {
             name: "operations",
             sizes: lin.clone(),
-            gen: |n| ((1..=n).map(|i| format!("query Q{i} {{ a }}\n")).collect(), Some("Q1".into())),
+            gen: Box::new(|n| ((1..=n).map(|i| format!("query Q{i} {{ a }}\n")).collect(), Some("Q1".into()))),
         },
         Family {
             name: "operations-x-chain",
             sizes: lin.clone(),
-            gen: |n| {
+            gen: Box::new(|n| {
                 let ops: String = (1..=n).map(|i| format!("query Q{i} {{ ...F1 }}\n")).collect();
                 let c = chain(n, 1, false);
                 (format!("{ops}{}", c.split_once('\n').unwrap().1), Some("Q1".into()))
-            },
+            }),
         },
-        Family { name: "list-nesting", sizes: lin.clone(), gen: |n| (format!("{{ j(v: {}) }}", nest("[", "1", "]", n)), None) },
-        Family { name: "object-nesting", sizes: lin.clone(), gen: |n| (format!("{{ j(v: {}) }}", nest("{k: ", "1", "}", n)), None) },
-        Family { name: "input-object-nesting", sizes: lin.clone(), gen: |n| (format!("{{ inp(v: {}) }}", nest("{k: ", "{v: 1}", "}", n)), None) },
-        Family { name: "input-list-nesting", sizes: lin.clone(), gen: |n| (format!("{{ inp(v: {}) }}", nest("{l: [", "{v: 1}", "]}", n)), None) },
-        Family { name: "list-width", sizes: lin.clone(), gen: |n| (format!("{{ j(v: [{}]) }}", "1 ".repeat(16 * n as usize)), None) },
+        Family { name: "list-nesting", sizes: lin.clone(), gen: Box::new(|n| (format!("{{ j(v: {}) }}", nest("[", "1", "]", n)), None)) },
+        Family { name: "object-nesting", sizes: lin.clone(), gen: Box::new(|n| (format!("{{ j(v: {}) }}", nest("{k: ", "1", "}", n)), None)) },
+        Family { name: "input-object-nesting", sizes: lin.clone(), gen: Box::new(|n| (format!("{{ inp(v: {}) }}", nest("{k: ", "{v: 1}", "}", n)), None)) },
+        Family { name: "input-list-nesting", sizes: lin.clone(), gen: Box::new(|n| (format!("{{ inp(v: {}) }}", nest("{l: [", "{v: 1}", "]}", n)), None)) },
+        Family { name: "list-width", sizes: lin.clone(), gen: Box::new(|n| (format!("{{ j(v: [{}]) }}", "1 ".repeat(16 * n as usize)), None)) },
         Family {
             name: "object-width",
             sizes: lin.clone(),
-            gen: |n| (format!("{{ j(v: {{{}}}) }}", (1..=16 * n).map(|i| format!("k{i}: 1 ")).collect::<String>()), None),
+            gen: Box::new(|n| (format!("{{ j(v: {{{}}}) }}", (1..=16 * n).map(|i| format!("k{i}: 1 ")).collect::<String>()), None)),
         },
         Family {
             name: "arguments",
             sizes: to24.clone(),
-            gen: |n| (format!("{{ m({}) }}", (1..=n).map(|i| format!("a{i}: {i} ")).collect::<String>()), None),
+            gen: Box::new(|n| (format!("{{ m({}) }}", (1..=n).map(|i| format!("a{i}: {i} ")).collect::<String>()), None)),
         },
         Family {
             name: "arguments-x-copies",
             sizes: to24.clone(),
-            gen: |n| {
+            gen: Box::new(|n| {
                 let call = format!("m({}) ", (1..=n).map(|i| format!("a{i}: {i} ")).collect::<String>());
                 (format!("{{ {}}}", call.repeat(n as usize)), None)
-            },
+            }),
         },
         Family {
             name: "overlap-wide",
             sizes: lin.clone(),
-            gen: |n| {
+            gen: Box::new(|n| {
                 let inner = format!("o {{ {}}} ", "a ".repeat(n as usize));
                 (format!("{{ {}}}", inner.repeat(n as usize)), None)
-            },
+            }),
         },
         Family {
             name: "overlap-nested",
             sizes: lin.clone(),
-            gen: |n| {
+            gen: Box::new(|n| {
                 let row = "a ".repeat(n as usize);
                 (format!("{{ {} }}", nest(&format!("{row}o {{ "), &row, "}", n)), None)
-            },
+            }),
         },
         Family {
             name: "directives",
             sizes: lin.clone(),
-            gen: |n| (format!("{{ {}}}", "a @skip(if: false) @include(if: true) ".repeat(n as usize)), None),
+            gen: Box::new(|n| (format!("{{ {}}}", "a @skip(if: false) @include(if: true) ".repeat(n as usize)), None)),
         },
         Family {
             name: "variables-x-chain",
             sizes: lin.clone(),
-            gen: |n| {
+            gen: Box::new(|n| {
                 let vars: String = (1..=n).map(|i| format!("$v{i}: Int ")).collect();
                 let mut d = format!("query Q({vars}) {{ ...F1 }}\n");
                 for i in 1..=n {
@@ -419,9 +419,35 @@ fn families(max_n: u32) -> Vec<Family> {
                     d += &format!("fragment F{i} on Node {{ x{i}: arg(x: $v{i}) {next}}}\n");
                 }
                 (d, None)
-            },
+            }),
         },
-    ]
+    ];
+    // pattern chains: every fragment spreads its successor once per letter of the pattern, `s` = directly in its
+    // body, `d` = one level deeper (inside `o { }`); all patterns of length 1..=5. A walker that memoises per
+    // fragment ("walked", "walked at depth d") must stay polynomial whatever the mix and order of depths.
+    for len in 1..=5u32 {
+        for bits in 0..(1u32 << len) {
+            let pat: String = (0..len).map(|i| if bits >> i & 1 == 1 { 'd' } else { 's' }).collect();
+            let name: &'static str = Box::leak(format!("pattern-chain/{pat}").into_boxed_str());
+            fams.push(Family {
+                name,
+                sizes: lin.clone(),
+                gen: Box::new(move |n| {
+                    let mut d = String::from("query { ...F1 }\n");
+                    for i in 1..=n {
+                        if i == n {
+                            d += &format!("fragment F{i} on Node {{ a }}\n");
+                        } else {
+                            let body: String = pat.chars().map(|c| if c == 'd' { format!("o {{ ...F{} }} ", i + 1) } else { format!("...F{} ", i + 1) }).collect();
+                            d += &format!("fragment F{i} on Node {{ {body}}}\n");
+                        }
+                    }
+                    (d, None)
+                }),
+            });
+        }
+    }
+    fams
 }
 
 // ---------------------------------------------------------------------------------------------
